@@ -257,6 +257,20 @@ def run(ck, m):
     ck.ob("R3", ct, not uses, f"content() reads {['image.' + u for u in uses]} at call time: the image may have been re-sized since this canvas was rendered, so rows/widths/cells would no longer match the held render",
           stmt="content: no attribute of the live image is read")
     ini = m.get(UW, "UrwidImageCanvas.__init__")
+    # content() is a read-only view: asked for any sequence of regions, the canvas must answer each as if it were the first. It therefore changes no object
+    # it did not build itself in this call (subscript stores / mutators on the recorded lines or anything else reachable from self)
+    from rules.c16 import _fresh_locals, _base_name, MUTATORS as _MUT
+    for fn_ in [ct] + [f_ for _r, _q, f_ in m.functions() if _r == UW and _q.startswith("UrwidImageCanvas._ti_")]:
+        fresh_, _params = _fresh_locals(fn_)
+        for t_, st_ in stores_in(ast.Module(body=fn_.body, type_ignores=[])):
+            if isinstance(t_, ast.Subscript) and _base_name(t_) not in fresh_:
+                ck.ob("R3", st_, False, f"`{short(st_, 60)}` in {fn_.name} rewrites in place an object that outlives the call (not built here): a later request for another region of the same canvas "
+                      "reads the rewritten data (e.g. lines whose cell separators were already stripped)", stmt=f"{fn_.name}: read-only view of the canvas")
+        for c_ in body_walk(fn_):
+            if isinstance(c_, ast.Call) and isinstance(c_.func, ast.Attribute) and c_.func.attr in _MUT and isinstance(c_._p, ast.Expr) and _base_name(c_.func.value) not in fresh_ \
+                    and "self" in {x.id for x in ast.walk(trace(fn_, c_.func.value)) if isinstance(x, ast.Name)}:
+                ck.ob("R3", enclosing_stmt(c_), False, f"`{short(c_, 60)}` in {fn_.name} changes in place an object held by the canvas", stmt=f"{fn_.name}: read-only view of the canvas")
+    ck.ob("R3", ct, True, "", stmt="content and its helpers change no object held by the canvas")
     ck.ob("R3", ini, any(norm(s) == "self._ti_image_size = image_size" for s in ini.body), "the canvas must record the image size at construction", stmt="UrwidImageCanvas.__init__: records image_size")
     calls = [c for c in body_walk(ct) if isinstance(c, ast.Call) and (call_name(c) or "").endswith("_ti_calc_trim") and len(c.args) == 6]
     ck.expect(len(calls) == 2, f"content: the two self._ti_calc_trim(...) calls (vertical, horizontal) not found ({len(calls)})")
